@@ -3368,6 +3368,11 @@ func MarshalSRBSID(bsid *bgp.TunnelEncapSubTLVSRBSID) (*api.SRBindingSID, error)
 		Sid: make([]byte, len(bsid.BSID.Value)),
 	}
 	copy(s.Sid, bsid.BSID.Value)
+	if len(s.Sid) == 4 {
+		// The API carries the label value: UnmarshalSRBSID (bgp.NewBSID)
+		// shifts it into the label field of the 4-octet SID.
+		binary.BigEndian.PutUint32(s.Sid, binary.BigEndian.Uint32(s.Sid)>>12)
+	}
 	s.SFlag = bsid.Flags&0x80 == 0x80
 	s.IFlag = bsid.Flags&0x40 == 0x40
 	return s, nil
